@@ -56,7 +56,7 @@ impl UnnormalizedMachineBuilder<'_> {
 impl ImmutContext<'_> {
     fn new(file: &File) -> ImmutContext {
         let rules: Vec<Rule> = file.get_rules().collect();
-        let first_sets = get_first_sets(&rules);
+        let first_sets = get_first_sets(&rules, &file.nonterminals);
         ImmutContext {
             start_nonterminal_name: file.start.clone(),
             rules,
